@@ -320,6 +320,8 @@ type procCfg struct {
 	MapFixed    bool
 	MaxSteps    int
 	WatchdogS   int // seconds of real time without the process finishing before it is declared stuck
+	// ViaLink: the project is loaded through a symbolic link to its root directory
+	ViaLink bool `json:"via_link,omitempty"`
 }
 
 type procResult struct {
@@ -481,6 +483,9 @@ func newWorld(c *simcheck.Ctx) (*world, func(), error) {
 
 // treeHash hashes names and contents of everything under dir (optionally skipping a prefix).
 func treeHash(dir string, skip func(rel string) bool) string {
+	if real, err := filepath.EvalSymlinks(dir); err == nil {
+		dir = real // the walk does not follow a link given as its root
+	}
 	h := sha256.New()
 	var paths []string
 	filepath.WalkDir(dir, func(p string, d os.DirEntry, err error) error {
@@ -515,6 +520,9 @@ func treeHash(dir string, skip func(rel string) bool) string {
 }
 
 func copyTree(src, dst string, skip func(rel string) bool) error {
+	if real, err := filepath.EvalSymlinks(src); err == nil {
+		src = real
+	}
 	return filepath.WalkDir(src, func(p string, d os.DirEntry, err error) error {
 		if err != nil {
 			return err
